@@ -41,3 +41,14 @@ Proof.
   intros k sched H2 c s K. apply (terminal_clean_l c sched); auto.
   apply cfg_of_workers.
 Qed.
+
+(* finding F29 (fixed in /repo 65e1133): MapReduceVoid / Finish map ErrReduceNoOutput to nil only when
+   nobody cancelled; an error that is ErrReduceNoOutput and was passed to cancel (e.g. returned by a
+   nested MapReduce inside a Finish function) is returned.  If MapReduceVoid goes back to
+   errors.Is on every result, this obligation breaks (and the correspondence run shows the nil). *)
+Lemma void_keeps_cancelled_error : gen_voidSwallowsCancelledNoOutput = false.
+Proof. reflexivity. Qed.
+
+Lemma void_result_is_cancel_error : forall k, post_result AVoid (OErr (ECancel k)) = OErr (ECancel k)
+                                           /\ post_result AFinish (OErr (ECancel k)) = OErr (ECancel k).
+Proof. intros k. unfold post_result. rewrite void_keeps_cancelled_error. split; reflexivity. Qed.
